@@ -61,6 +61,8 @@ CAP = {"quick": 20000, "thorough": 400000}  # executions per shard (all its expl
 CAP_COMPLETE = {"quick": 20000, "thorough": 100000}  # per complete (pruned) exploration of one configuration / fault
 CAP_UNPRUNED = {"quick": 20000, "thorough": 60000}  # per deviation-bounded unpruned exploration (cross-check of the pruning)
 REAL_REPLAYS = {"quick": 3, "thorough": 8}
+OPS_PER_EXEC = 60
+STARVE_K = 3000  # consecutive timed-out reads (25 minutes at the 0.5 s of the main loop)
 
 
 def plan(tier, seed):
@@ -205,6 +207,8 @@ def explore_config(res, c, scratch, tier, fault=None, judge_fn=None, tag="C11", 
     jf = judge_fn or (lambda x: judge(x, expected))
     picks = {}
     seen_exec = set()
+    nviol = [0]
+    enough = lambda: nviol[0] >= 200  # the violation is established; the rest of this configuration's tree adds nothing
 
     def on_exec(x):
         key = (tuple(x.choices))
@@ -221,6 +225,7 @@ def explore_config(res, c, scratch, tier, fault=None, judge_fn=None, tag="C11", 
         res.seen("outcomes", repr((x.outcome[0], len(rc.out_names(x.output)))))
         v = jf(x)
         if v is not None:
+            nviol[0] += 1
             res.fail(v[0], f"[{rc.cfg_key(c)}{', fault ' + str(fault) if fault else ''}] {v[1]}; schedule {x.choices}",
                      {"config": c, "schedule": x.choices, "fault": fault})
         # candidates for real-process replay
@@ -241,10 +246,23 @@ def explore_config(res, c, scratch, tier, fault=None, judge_fn=None, tag="C11", 
         budget = [CAP[tier]]
     # the complete (pruned) exploration first: it is the one that covers the whole schedule tree; the unpruned
     # deviation-bounded one gets what is left of the shard's budget
-    e2 = vmp.Explorer(cfg, fault=fault, bound=None, on_exec=on_exec, max_execs=max(1, min(CAP_COMPLETE[tier], budget[0])), prune=True).explore()
-    budget[0] -= e2.execs
-    e1 = vmp.Explorer(cfg, fault=fault, bound=b, on_exec=on_exec, max_execs=max(1, min(cap_unpruned or CAP_UNPRUNED[tier], budget[0] // 2))).explore()
-    budget[0] -= e1.execs
+    # executions of the explored configurations have fewer than 100 parent operations; a changed implementation whose
+    # executions are much longer is cut off by the operation budget instead of running for hours
+    e2 = vmp.Explorer(cfg, fault=fault, bound=None, on_exec=on_exec, max_execs=max(1, min(CAP_COMPLETE[tier], budget[0])), prune=True, max_ops=OPS_PER_EXEC * max(1, min(CAP_COMPLETE[tier], budget[0])), should_stop=enough).explore()
+    budget[0] -= max(e2.execs, e2.ops // OPS_PER_EXEC)
+    e1 = vmp.Explorer(cfg, fault=fault, bound=b, on_exec=on_exec, max_execs=max(1, min(cap_unpruned or CAP_UNPRUNED[tier], budget[0] // 2)), max_ops=OPS_PER_EXEC * max(1, min(cap_unpruned or CAP_UNPRUNED[tier], budget[0] // 2)), should_stop=enough).explore()
+    budget[0] -= max(e1.execs, e1.ops // OPS_PER_EXEC)
+    if fault is None:
+        # a worker that is slow for a long time: the parent times out STARVE_K times in a row at each of the first points
+        for i in range(4):
+            x = vmp.Exec(cfg, [], None, starve=(i, STARVE_K)).run()
+            res.count("starvation_executions")
+            if x.starved > 1:
+                res.count("starvation_executions_with_repeated_timeouts")
+            v = jf(x)
+            if v is not None:
+                res.fail(v[0] + ":after-many-timeouts", f"[{rc.cfg_key(c)}] the parent's queue read times out {x.starved} times in a row while the workers are slow (from choice point {i} on): {v[1]}",
+                         {"config": c, "schedule": x.choices, "fault": None, "starve": [i, STARVE_K]})
     res.count("executions_bounded_unpruned", e1.execs)
     res.count("executions_complete_pruned", e2.execs)
     res.count("states", len(e1.states | e2.states))
@@ -349,11 +367,15 @@ def replay(case, scratch):
     if expected is None:
         res.fail("C11/reference-run", f"single-core run broken: {ref.outcome}", case)
         return res.failures
-    x1 = vmp.Exec(cfg, case["schedule"], case.get("fault")).run()
-    x2 = vmp.Exec(cfg, case["schedule"], case.get("fault")).run()
+    starve = tuple(case["starve"]) if case.get("starve") else None
+    x1 = vmp.Exec(cfg, case["schedule"], case.get("fault"), starve=starve).run()
+    x2 = vmp.Exec(cfg, case["schedule"], case.get("fault"), starve=starve).run()
     if (x1.trace, x1.outcome, x1.output) != (x2.trace, x2.outcome, x2.output):
         raise fw.HarnessError("the same schedule gave two different executions")
     v = judge(x1, expected)
+    if v is not None and starve:
+        res.fail(v[0] + ":after-many-timeouts", v[1] + f" [after {x1.timeouts} timed-out reads; model only: that many half-second timeouts are not replayed in real time]", case)
+        return res.failures
     if v is not None:
         if c.get("pipe"):
             res.fail(v[0], v[1] + f" [model of a pipe holding {c['pipe']} message(s); a real pipe holds 64 KiB, i.e. this needs a batch whose results exceed it]", case)
